@@ -373,6 +373,10 @@ inductive SuOp (α : Type)
       `switched_direction`): the guards compare values the semiring cannot, so the harness
       says which exception the guard raises -/
   | rejected (e : PyErr)
+  /-- any non-mutating public call: property reads (`num_taps`, `channel_profile`, `num_tx_antennas`,
+      `switched_direction`, …), `__repr__`, and everything done with a response that was handed out
+      (`get_freq_response`, `tap_values`, `2 * ir`, `concatenate_samples`, copies, pickles) -/
+  | query
 
 inductive SuOut (α : Type)
   | y (rows : List (List α))
@@ -389,6 +393,7 @@ def Su.step (proc : Proc α) (fftK : Fft α) (c : Su α) : SuOp α → Except Py
   | .gen n => pure ({ c with tdl := { c.tdl with pos := c.tdl.pos + n, last := some (genIR proc c.tdl c.tdl.pos n) } },
                     .unit)
   | .rejected e => throw e
+  | .query => pure (c, .unit)
 
 /-- a call that raises leaves the object exactly as it was (every guard of the modelled
     methods runs before the first state change); the history goes on -/
@@ -430,6 +435,10 @@ inductive MuOp (α : Type)
   | getIR (rx tx : Nat)
   /-- a setter call its guard rejects (an entry of the path-loss matrix outside `[0, 1]`) -/
   | rejected (e : PyErr)
+  /-- `set_pathloss(None)`: no path loss on any link -/
+  | clearPathloss
+  /-- any non-mutating public call (`pathloss_matrix`, `num_taps`, `__repr__`, …) -/
+  | query
 
 inductive MuOut (α : Type)
   | y (outs : List (List (List α)))
@@ -443,6 +452,8 @@ def Mu.step (proc : Proc α) (fftK : Fft α) (c : Mu α) : MuOp α → Except Py
   | .setPathloss s => do let c' ← c.setPathloss s; pure (c', .unit)
   | .getIR rx tx => do let r ← c.lastIR rx tx; pure (c, .ir r)
   | .rejected e => throw e
+  | .clearPathloss => pure ({ c with links := c.links.map (fun l => { l with pl := none }) }, .unit)
+  | .query => pure (c, .unit)
 
 def Mu.stepR (proc : Proc α) (fftK : Fft α) (c : Mu α) (op : MuOp α) : Mu α × Except PyErr (MuOut α) :=
   match c.step proc fftK op with
